@@ -181,6 +181,13 @@ theorem cumulativeSum_prefix_sums_partial (cfg : Cfg) (hf : cfg.fn = .cumulative
     (tStep cfg (tRun cfg {} xs) p).2 = [{ time := some p.time, val := sumVals k (xs ++ [p]) }] :=
   cumsum_emits_prefix_sum' cfg hf k xs p hk
 
+/-- Proved part: the elapsed reducer emits, for every point after the first, the time difference to the
+previous point in units of `cfg.n` ns (truncated toward zero) at the later point's time. -/
+theorem elapsed_time_difference_partial (cfg : Cfg) (hf : cfg.fn = .elapsed) (xs : List QP) (a b : QP) :
+    (tStep cfg (tRun cfg {} (xs ++ [a])) b).2 =
+      [{ time := some b.time, val := .int (wrap64 ((b.time - a.time).tdiv cfg.n)) }] :=
+  elapsed_emits_time_difference' cfg hf xs a b
+
 example : (tStep { fn := .cumulativeSum, as_ := "c" } (tRun { fn := .cumulativeSum, as_ := "c" } {} [⟨1, .int 2, [], []⟩]) ⟨2, .int 5, [], []⟩).2
     = [{ time := some 2, val := .int 7 }] := by decide
 
